@@ -1,3 +1,294 @@
-//! C14 bounded native checks (not written yet)
+//! C14 bounded: mesh face selection is set algebra over a per-face predicate; the mesh built from a selection.
+//!
+//! Input space (all enumerated, no RNG): three meshes -- the unit box (12 faces), a 1x2x3 box carrying two vertices
+//! that no face uses, and a 5-face mesh with one exactly zero-area (collinear) face; the reference mesh of the
+//! near-mesh criterion is the same mesh shifted by (1/8, 1/16, 1/32). Criteria: facing(+z, 0.1 rad), facing(+x, pi/2),
+//! near_mesh with distance tolerance in {0.1, 0.2} x planar tolerance in {None, 0.05} x angle tolerance in {None, 0.2}
+//! x all_points in {true, false} (18 criteria). Steps: {Add, Remove, Keep} x criteria. Starting selections: None, All,
+//! {0}, {1,2,3}, {2,2,4} (duplicated id), the odd faces, all faces in reverse order. Chains: every chain of 1 and of 2
+//! steps from every starting selection.
+//!
+//! Clauses (from the C14 statement):
+//! * whether a face satisfies a criterion is evaluated one face at a time through the public API (Keep on the
+//!   single-face selection {i}); the same verdict must come out of Add from the empty selection and of Remove on {i};
+//! * the result of every chain equals the union / difference / intersection with those per-face sets, step by step,
+//!   and is the same on a repeated run (fresh hash sets, so a different hash-iteration order);
+//! * independent oracles for the verdict itself: facing == angle(normal, direction) < angle and false for a face
+//!   without a normal (normal recomputed from the coordinates); near_mesh without planar / angle tolerance ==
+//!   all / any vertex within the distance of the reference surface by exhaustive point-triangle distance; with
+//!   tolerances == the per-vertex test (cap, in-plane distance to the projection, angle between the face normal and
+//!   the reference face normal) on the projection reported by Mesh::project_with_max_dist. Verdicts within 1e-9 of a
+//!   threshold are not compared (the statement does not fix the boundary);
+//! * create_mesh at the end of a chain / create_from_indices on an index list: exactly the selected triangles
+//!   (coordinates bit for bit, winding up to rotation of the triple), every vertex used, and as many vertices as the
+//!   selected triangles use in the source. The EMPTY selection is skipped: it panics (known finding of unit
+//!   mesh_from_indices: parry rejects an empty index buffer).
 use super::Report;
-pub fn run() -> Option<Report> { None }
+use crate::{Mesh, Point3, SelectOp, Selection, Vector3};
+use std::collections::BTreeSet;
+use std::panic::{catch_unwind, AssertUnwindSafe};
+
+#[derive(Clone, Copy, Debug)]
+enum Crit {
+    Facing(usize, f64),                          // direction id, angle
+    Near(bool, f64, Option<f64>, Option<f64>),   // all_points, distance, planar, angle
+}
+const MODES: [SelectOp; 3] = [SelectOp::Add, SelectOp::Remove, SelectOp::Keep];
+
+fn dir(id: usize) -> Vector3 { if id == 0 { Vector3::new(0.0, 0.0, 1.0) } else { Vector3::new(1.0, 0.0, 0.0) } }
+
+fn criteria() -> Vec<Crit> {
+    let mut v = vec![Crit::Facing(0, 0.1), Crit::Facing(1, std::f64::consts::FRAC_PI_2)];
+    for d in [0.1, 0.2] { for p in [None, Some(0.05)] { for a in [None, Some(0.2)] { for all in [true, false] {
+        v.push(Crit::Near(all, d, p, a));
+    } } } }
+    v
+}
+
+fn step<'a>(f: crate::geom3::mesh::filtering::TriangleFilter<'a>, reference: &Mesh, c: Crit, mode: SelectOp) -> crate::geom3::mesh::filtering::TriangleFilter<'a> {
+    match c {
+        Crit::Facing(d, a) => f.facing(&dir(d), a, mode),
+        Crit::Near(all, d, p, a) => f.near_mesh(reference, all, d, p, a, mode),
+    }
+}
+
+fn run_chain(mesh: &Mesh, reference: &Mesh, start: &Selection, chain: &[(Crit, SelectOp)]) -> BTreeSet<usize> {
+    let mut f = mesh.face_select(start.clone());
+    for (c, m) in chain.iter() { f = step(f, reference, *c, *m); }
+    f.collect().into_iter().collect()
+}
+
+fn start_set(n: usize, s: &Selection) -> BTreeSet<usize> {
+    match s { Selection::None => BTreeSet::new(), Selection::All => (0..n).collect(), Selection::Indices(v) => v.iter().copied().collect() }
+}
+
+fn apply(sel: &BTreeSet<usize>, p: &[bool], mode: SelectOp) -> BTreeSet<usize> {
+    let pset: BTreeSet<usize> = (0..p.len()).filter(|&i| p[i]).collect();
+    match mode {
+        SelectOp::Add => sel.union(&pset).copied().collect(),
+        SelectOp::Remove => sel.difference(&pset).copied().collect(),
+        SelectOp::Keep => sel.intersection(&pset).copied().collect(),
+    }
+}
+
+// ---------------------------------------------------------------- independent geometry
+fn tri_pts(m: &Mesh, i: usize) -> (Point3, Point3, Point3) {
+    let t = m.faces()[i];
+    (m.vertices()[t[0] as usize], m.vertices()[t[1] as usize], m.vertices()[t[2] as usize])
+}
+fn face_normal(m: &Mesh, i: usize) -> Option<Vector3> {
+    let (a, b, c) = tri_pts(m, i);
+    let n = (b - a).cross(&(c - a));
+    if n.norm() < 1e-12 { None } else { Some(n / n.norm()) }
+}
+fn seg_dist(p: &Point3, a: &Point3, b: &Point3) -> f64 {
+    let ab = b - a;
+    let l2 = ab.norm_squared();
+    let t = if l2 == 0.0 { 0.0 } else { ((p - a).dot(&ab) / l2).clamp(0.0, 1.0) };
+    (p - (a + ab * t)).norm()
+}
+fn tri_dist(p: &Point3, a: &Point3, b: &Point3, c: &Point3) -> f64 {
+    let mut best = seg_dist(p, a, b).min(seg_dist(p, b, c)).min(seg_dist(p, c, a));
+    let n = (b - a).cross(&(c - a));
+    if n.norm() > 1e-12 {
+        let n = n / n.norm();
+        let h = (p - a).dot(&n);
+        let q = p - n * h;
+        let inside = (b - a).cross(&(q - a)).dot(&n) >= 0.0 && (c - b).cross(&(q - b)).dot(&n) >= 0.0 && (a - c).cross(&(q - c)).dot(&n) >= 0.0;
+        if inside { best = best.min(h.abs()); }
+    }
+    best
+}
+fn mesh_dist(m: &Mesh, p: &Point3) -> f64 {
+    (0..m.faces().len()).map(|i| { let (a, b, c) = tri_pts(m, i); tri_dist(p, &a, &b, &c) }).fold(f64::INFINITY, f64::min)
+}
+
+const EDGE: f64 = 1e-9;
+/// Some(verdict) by the independent oracle, None when a comparison is within EDGE of its threshold
+fn oracle(mesh: &Mesh, reference: &Mesh, c: Crit, i: usize) -> Option<bool> {
+    match c {
+        Crit::Facing(d, a) => match face_normal(mesh, i) {
+            None => Some(false),
+            Some(n) => { let ang = n.angle(&dir(d)); if (ang - a).abs() < EDGE { None } else { Some(ang < a) } }
+        },
+        Crit::Near(all, d, planar, angle) => {
+            let t = mesh.faces()[i];
+            let fnorm = face_normal(mesh, i);
+            let mut verdicts = Vec::new();
+            for k in 0..3 {
+                let p = mesh.vertices()[t[k] as usize];
+                let bd = mesh_dist(reference, &p);
+                if (bd - d).abs() < EDGE { return None; }
+                let v = if planar.is_none() && angle.is_none() { bd <= d } else {
+                    match reference.project_with_max_dist(&p, d) {
+                        None => { if bd <= d { return None; } false }   // cap semantics belong to C02: not judged here
+                        Some((prj, ri, _)) => match face_normal(reference, ri as usize) {
+                            None => false,
+                            Some(rn) => {
+                                let w = p - prj.point;
+                                let inplane = (w - rn * w.dot(&rn)).norm();
+                                let okp = match planar { None => true, Some(pt) => { if (inplane - pt).abs() < EDGE { return None; } inplane <= pt } };
+                                let oka = match angle { None => true, Some(at) => match fnorm {
+                                    None => false,
+                                    Some(fnv) => { let ang = fnv.angle(&rn); if (ang - at).abs() < EDGE { return None; } ang <= at }
+                                } };
+                                okp && oka
+                            }
+                        },
+                    }
+                };
+                verdicts.push(v);
+            }
+            Some(if all { verdicts.iter().all(|&b| b) } else { verdicts.iter().any(|&b| b) })
+        }
+    }
+}
+
+// ---------------------------------------------------------------- built mesh
+type Tri = [[u64; 3]; 3];
+fn key(p: &Point3) -> [u64; 3] { [p.x.to_bits(), p.y.to_bits(), p.z.to_bits()] }
+fn canon(m: &Mesh, f: &[u32; 3]) -> Tri {
+    let c = [key(&m.vertices()[f[0] as usize]), key(&m.vertices()[f[1] as usize]), key(&m.vertices()[f[2] as usize])];
+    let k = (0..3).min_by_key(|&i| c[i]).unwrap();
+    [c[k], c[(k + 1) % 3], c[(k + 2) % 3]]
+}
+fn check_built<F: Fn() -> String + Copy>(r: &mut Report, source: &Mesh, selected: &[usize], built: &Mesh, desc: F) {
+    let mut expect: Vec<Tri> = selected.iter().map(|&i| canon(source, &source.faces()[i])).collect();
+    let mut got: Vec<Tri> = built.faces().iter().map(|f| canon(built, f)).collect();
+    expect.sort();
+    got.sort();
+    r.check(got == expect, "built mesh: exactly the selected triangles with identical coordinates and winding", desc);
+    let mut used = vec![false; built.vertices().len()];
+    let mut ids_ok = true;
+    for f in built.faces() { for &v in f { if (v as usize) < used.len() { used[v as usize] = true; } else { ids_ok = false; } } }
+    r.check(ids_ok, "built mesh: faces refer to existing vertices", desc);
+    r.check(used.iter().all(|&u| u), "built mesh: only the vertices the selected triangles use", desc);
+    let src_used: BTreeSet<u32> = selected.iter().flat_map(|&i| source.faces()[i].iter().copied()).collect();
+    r.check(built.vertices().len() == src_used.len(), "built mesh: one vertex per source vertex in use", desc);
+}
+
+// ---------------------------------------------------------------- inputs
+fn shifted(m: &Mesh) -> Mesh {
+    let s = Vector3::new(0.125, 0.0625, 0.03125);
+    Mesh::new(m.vertices().iter().map(|p| p + s).collect(), m.faces().to_vec(), false)
+}
+fn meshes() -> Vec<(&'static str, Mesh)> {
+    let b = Mesh::create_box(1.0, 2.0, 3.0, false);
+    let mut vertices = b.vertices().to_vec();
+    vertices.push(Point3::new(5.0, 5.0, 5.0));
+    vertices.insert(0, Point3::new(-5.0, -5.0, -5.0));
+    let faces = b.faces().iter().map(|f| [f[0] + 1, f[1] + 1, f[2] + 1]).collect();
+    let loose = Mesh::new(vertices, faces, false);
+    let degenerate = Mesh::new(
+        vec![Point3::new(0.0, 0.0, 0.0), Point3::new(1.0, 0.0, 0.0), Point3::new(0.0, 1.0, 0.0), Point3::new(2.0, 0.0, 0.0), Point3::new(0.0, 0.0, 1.0)],
+        vec![[0, 1, 2], [0, 2, 1], [0, 1, 3], [0, 1, 4], [0, 4, 2]],
+        false,
+    );
+    vec![("unit box", Mesh::create_box(1.0, 1.0, 1.0, false)), ("1x2x3 box with two unused vertices", loose), ("5 faces, face 2 has zero area", degenerate)]
+}
+fn starts(n: usize) -> Vec<Selection> {
+    let mut v = vec![Selection::None, Selection::All, Selection::Indices(vec![0]), Selection::Indices(vec![1, 2, 3]), Selection::Indices(vec![2, 2, 4]),
+                     Selection::Indices((0..n).rev().collect())];
+    if n > 5 { v.push(Selection::Indices((0..n).filter(|i| i % 2 == 1).collect())); }
+    v
+}
+
+pub fn run() -> Option<Report> {
+    let mut r = Report::new("meshes: unit box (12 faces), 1x2x3 box with two unused vertices, 5-face mesh with a zero-area face; reference = the mesh shifted by (1/8,1/16,1/32); 18 criteria (facing(+z,0.1), facing(+x,pi/2), near_mesh with distance {0.1,0.2} x planar {None,0.05} x angle {None,0.2} x all_points {true,false}); steps = {Add,Remove,Keep} x criteria; 6-7 starting selections (None, All, index sets incl. a duplicated id and a reversed full list); every chain of 1 and 2 steps; create_mesh / create_from_indices on every non-empty 0- and 1-step result");
+    let crits = criteria();
+    for (mname, mesh) in meshes().iter() {
+        let reference = shifted(mesh);
+        let n = mesh.faces().len();
+        // per-face verdicts, one face at a time
+        let mut pred: Vec<Vec<bool>> = Vec::new();
+        for c in crits.iter() {
+            let mut p = vec![false; n];
+            for i in 0..n {
+                r.case();
+                let d = || format!("{}: criterion {:?}, face {}", mname, c, i);
+                let keep = run_chain(mesh, &reference, &Selection::Indices(vec![i]), &[(*c, SelectOp::Keep)]);
+                r.check(keep.is_empty() || (keep.len() == 1 && keep.contains(&i)), "Keep on a single-face selection yields that face or nothing", d);
+                p[i] = keep.contains(&i);
+                let removed = run_chain(mesh, &reference, &Selection::Indices(vec![i]), &[(*c, SelectOp::Remove)]);
+                r.check(removed.contains(&i) == !p[i] && removed.len() <= 1, "the verdict on a face is the same under Keep and Remove", d);
+                if let Some(o) = oracle(mesh, &reference, *c, i) {
+                    let what = match c {
+                        Crit::Facing(..) => "facing verdict == (angle between the face normal and the direction < angle), false without a normal",
+                        Crit::Near(_, _, None, None) => "near-mesh verdict (distance only) == all / any vertex within the distance by exhaustive point-triangle distance",
+                        Crit::Near(..) => "near-mesh verdict (with tolerances) == per-vertex cap, in-plane distance and normal-angle test on the reported projection",
+                    };
+                    r.check(p[i] == o, what, d);
+                }
+            }
+            let add = run_chain(mesh, &reference, &Selection::None, &[(*c, SelectOp::Add)]);
+            let pset: BTreeSet<usize> = (0..n).filter(|&i| p[i]).collect();
+            r.check(add == pset, "Add from the empty selection yields exactly the faces that satisfy the criterion one at a time", || format!("{}: criterion {:?}: got {:?}, per-face {:?}", mname, c, add, pset));
+            pred.push(p);
+        }
+        // chains
+        let steps: Vec<(usize, SelectOp)> = (0..crits.len()).flat_map(|c| MODES.iter().map(move |m| (c, *m))).collect();
+        for st in starts(n).iter() {
+            let s0 = start_set(n, st);
+            {
+                r.case();
+                let got = run_chain(mesh, &reference, st, &[]);
+                r.check(got == s0, "the starting selection is the given set of faces", || format!("{}: start {:?}: got {:?}", mname, st, got));
+                built_checks(&mut r, mname, mesh, &reference, st, &[], &s0);
+            }
+            for &(c1, m1) in steps.iter() {
+                r.case();
+                let e1 = apply(&s0, &pred[c1], m1);
+                let chain1 = [(crits[c1], m1)];
+                let d1 = |got: &BTreeSet<usize>| format!("{}: start {:?}, steps {:?}: got {:?}, expected {:?}", mname, st, chain1, got, e1);
+                let got = run_chain(mesh, &reference, st, &chain1);
+                r.check(got == e1, clause(m1), || d1(&got));
+                let again = run_chain(mesh, &reference, st, &chain1);
+                r.check(again == got, "a repeated run (fresh hash sets) yields the same selection", || d1(&again));
+                built_checks(&mut r, mname, mesh, &reference, st, &chain1, &e1);
+                for &(c2, m2) in steps.iter() {
+                    let e2 = apply(&e1, &pred[c2], m2);
+                    let chain2 = [(crits[c1], m1), (crits[c2], m2)];
+                    let got = run_chain(mesh, &reference, st, &chain2);
+                    r.check(got == e2, clause(m2), || format!("{}: start {:?}, steps {:?}: got {:?}, expected {:?} (after the first step {:?})", mname, st, chain2, got, e2, e1));
+                }
+            }
+        }
+    }
+    Some(r)
+}
+
+fn clause(m: SelectOp) -> &'static str {
+    match m {
+        SelectOp::Add => "Add yields the union with the faces that satisfy the criterion",
+        SelectOp::Remove => "Remove yields the difference with the faces that satisfy the criterion",
+        SelectOp::Keep => "Keep yields the intersection with the faces that satisfy the criterion",
+    }
+}
+
+fn built_checks(r: &mut Report, mname: &str, mesh: &Mesh, reference: &Mesh, st: &Selection, chain: &[(Crit, SelectOp)], expected: &BTreeSet<usize>) {
+    // the built mesh is compared with the selection the same chain reports through collect() (whether that selection
+    // is the right one is the business of the set-algebra clauses)
+    let _ = expected;
+    let sel: Vec<usize> = run_chain(mesh, reference, st, chain).into_iter().collect();
+    if sel.is_empty() { return; }   // known finding: the empty selection panics in Mesh::new
+    let d = || format!("{}: start {:?}, steps {:?}, create_mesh (collect() gives faces {:?})", mname, st, chain, sel);
+    let built = catch_unwind(AssertUnwindSafe(|| {
+        let mut f = mesh.face_select(st.clone());
+        for (c, m) in chain.iter() { f = step(f, reference, *c, *m); }
+        f.create_mesh()
+    }));
+    match built {
+        Ok(b) => check_built(r, mesh, &sel, &b, d),
+        Err(_) => r.check(false, "create_mesh on a non-empty selection does not panic", d),
+    }
+    if chain.is_empty() || chain.len() == 1 && matches!(chain[0].0, Crit::Facing(..)) {
+        for rev in [false, true] {
+            let list: Vec<usize> = if rev { sel.iter().rev().copied().collect() } else { sel.clone() };
+            let d2 = || format!("{}: create_from_indices({:?})", mname, list);
+            match catch_unwind(AssertUnwindSafe(|| mesh.create_from_indices(&list))) {
+                Ok(b) => check_built(r, mesh, &list, &b, d2),
+                Err(_) => r.check(false, "create_from_indices on a non-empty index list does not panic", d2),
+            }
+        }
+    }
+}
